@@ -910,6 +910,12 @@ func isSafeForMultilineReverseSuffix(re *syntax.Regexp) bool {
 		return false
 	}
 
+	// The searcher looks for a match inside the line of a suffix candidate: a pattern
+	// that can consume '\n' (`(?s:.*)`, `[^a]`, `\s`) may start on an earlier line.
+	if canConsumeNewline(re) {
+		return false
+	}
+
 	switch re.Op {
 	case syntax.OpConcat:
 		if len(re.Sub) < 2 {
@@ -943,6 +949,34 @@ func isSafeForMultilineReverseSuffix(re *syntax.Regexp) bool {
 	default:
 		return false
 	}
+}
+
+// canConsumeNewline reports whether some literal, class or wildcard of re can match '\n'.
+func canConsumeNewline(re *syntax.Regexp) bool {
+	switch re.Op {
+	case syntax.OpAnyChar:
+		return true
+	case syntax.OpLiteral:
+		for _, r := range re.Rune {
+			if r == '\n' {
+				return true
+			}
+		}
+		return false
+	case syntax.OpCharClass:
+		for i := 0; i+1 < len(re.Rune); i += 2 {
+			if re.Rune[i] <= '\n' && '\n' <= re.Rune[i+1] {
+				return true
+			}
+		}
+		return false
+	}
+	for _, sub := range re.Sub {
+		if canConsumeNewline(sub) {
+			return true
+		}
+	}
+	return false
 }
 
 // isWildcardOp checks if the op is a wildcard pattern (.*, .+, or [charclass]+)
